@@ -168,6 +168,19 @@ func (t *Type) UnmarshalJSON(buf []byte) error {
 				if err != nil {
 					return err
 				}
+				for _, name := range optionals {
+					// (attribute names are normalized when the type is built)
+					declared := false
+					for attrName := range atys {
+						if NormalizeString(attrName) == NormalizeString(name) {
+							declared = true
+							break
+						}
+					}
+					if !declared {
+						return fmt.Errorf("optional attribute %q is not declared", name)
+					}
+				}
 				*t = ObjectWithOptionalAttrs(atys, optionals)
 			} else {
 				*t = Object(atys)
